@@ -509,8 +509,9 @@ class Finding:
         return d
 
 
-def finding_at(prop, rule, node, message, stmt=None, **extra) -> Finding:
-    """Finding located at ``node`` (any AST node inside a module of the program)."""
+def finding_at(prop, rule, node, message, stmt=None, text=None, **extra) -> Finding:
+    """Finding located at ``node`` (any AST node inside a module of the program).
+    ``text`` is appended to the normalised statement to tell apart several obligations on one statement."""
     s = stmt if stmt is not None else enclosing_stmt(node)
     if s is None:
         s = node
@@ -520,7 +521,7 @@ def finding_at(prop, rule, node, message, stmt=None, **extra) -> Finding:
         rule,
         m.rel,
         qual_of(node),
-        norm(s),
+        norm(s) + (f" :: {text}" if text else ""),
         message,
         getattr(node, "lineno", 0) or getattr(s, "lineno", 0),
         extra,
